@@ -42,6 +42,7 @@ structure Cfg where
   lossRf : List Pat
   lossCp : List Pat
   lossCb : List Pat
+  lossRf0 : List Pat := []   -- fate of Close's Refresh(0)
   deriving Repr, Inhabited
 
 inductive Kind | rf (lt : Nat) | cp | cb (p : Nat)
@@ -81,6 +82,7 @@ structure St where
   bindWake : Option Nat := none
   bnds : List Bnd := []
   bindTx : List (Option Txn) := [] -- per peer: the ChannelBind transaction of the running bindChannel goroutine
+  closeTx : Option Txn := none     -- Close's Refresh(0): nobody waits for its result, but it is retransmitted like any other
   rfIdx : Nat := 0
   cpIdx : Nat := 0
   cbIdx : List Nat := []
@@ -150,7 +152,11 @@ def maybeBind (s : St) (t p : Nat) : St :=
 
 def maxAttempts : Nat := 3
 
-inductive Root | alloc | allocTx | perm | permTx | bind | bindTx (p : Nat)
+/-- the client transmits a request 7 times (indices 0…6) and gives up at `off 7`; a transaction that is
+    answered at all is therefore answered within `dTx` of its start -/
+def maxIdx : Nat := 6
+
+inductive Root | alloc | allocTx | perm | permTx | bind | bindTx (p : Nat) | closeTx
   deriving Repr, DecidableEq
 
 def optRoot (o : Option Nat) (r : Root) : List (Nat × Root) := match o with | some w => [(w, r)] | none => []
@@ -159,7 +165,8 @@ def roots (s : St) : List (Nat × Root) :=
   optRoot s.allocWake .alloc ++ optRoot (s.allocTx.map Txn.due) .allocTx ++
   optRoot s.permWake .perm ++ optRoot (s.permTx.map Txn.due) .permTx ++
   optRoot s.bindWake .bind ++
-  (s.bindTx.zipIdx.flatMap fun (x, p) => optRoot (x.map Txn.due) (.bindTx p))
+  (s.bindTx.zipIdx.flatMap fun (x, p) => optRoot (x.map Txn.due) (.bindTx p)) ++
+  optRoot (s.closeTx.map Txn.due) .closeTx
 
 def earliest : List (Nat × Root) → Option (Nat × Root)
   | [] => none
@@ -226,6 +233,16 @@ def fireBindTx (s : St) (p : Nat) (x : Txn) : St × List Out :=
     (if x.attempt + 1 < maxAttempts then startBind s2 x.due p (x.attempt + 1) else { s2 with tainted := true, why := 4 }, outs)
   | some .dead => ({ s1 with dead := true }, outs)
 
+/-- Close's Refresh(0): fire-and-forget for the caller, but the transaction keeps its retransmission timer.
+    A 438 is not acted upon (finding F13); a request that finds no allocation gets no answer at all, so the
+    client keeps retransmitting until it has sent all seven copies. -/
+def fireCloseTx (s : St) (x : Txn) : St × List Out :=
+  let (s1, outs, r) := transmit { s with closeTx := none } (.rf 0) x
+  match r with
+  | some .ok => (s1, outs)
+  | some .stale => (s1, outs)
+  | _ => (if x.i < maxIdx then { s1 with closeTx := some (next x) } else s1, outs)
+
 def forPeers (n : Nat) (f : St → Nat → St) (s : St) : St := (List.range n).foldl f s
 
 def fire (s : St) (t : Nat) : Root → St × List Out
@@ -237,6 +254,7 @@ def fire (s : St) (t : Nat) : Root → St × List Out
   | .allocTx => match s.allocTx with | some x => fireAllocTx s x | none => (s, [])
   | .permTx => match s.permTx with | some x => firePermTx s x | none => (s, [])
   | .bindTx p => match s.bindTx.getD p none with | some x => fireBindTx s p x | none => (s, [])
+  | .closeTx => match s.closeTx with | some x => fireCloseTx s x | none => (s, [])
 
 /-- run every driver and transaction event due up to and including `target` -/
 def advanceTo (target : Nat) : Nat → St → List Out → St × List Out
@@ -255,6 +273,7 @@ inductive Op
   | wr (p : Nat)      -- the application writes a datagram to peer p
   | pw (p : Nat)      -- peer p writes a datagram to the relayed address
   | close
+  | count      -- Server.AllocationCount
   deriving Repr
 
 def step (s : St) : Op → St × List Out
@@ -271,15 +290,13 @@ def step (s : St) : Op → St × List Out
     (s1, if allocLive s t && (chanLive s p t || permLive s p t) then [Out.dc t p] else [])
   | .close =>
     let t := s.now
-    let s0 := { s with closed := true, allocWake := none, permWake := none, bindWake := none }
-    let (s1, c) := srvProc s0 t (.rf 0) s.nonce
     let busy := s.allocTx.isSome || s.permTx.isSome || s.bindTx.any Option.isSome
-    let s1 := if onEdge s t || busy then { s1 with tainted := true, why := 5 } else s1
-    (s1, [Out.resp t (.rf 0) c, Out.count (if allocLive s1 t then 1 else 0)])
+    let s0 := { s with closed := true, allocWake := none, permWake := none, bindWake := none,
+                       closeTx := some ⟨t, 0, pick s.cfg.lossRf0 0, s.nonce, 0⟩ }
+    let s0 := if onEdge s t || busy then { s0 with tainted := true, why := 5 } else s0
+    advanceTo t 16 s0 []
+  | .count => (s, [Out.count (if allocLive s s.now then 1 else 0)])
 
-/-- the client transmits a request 7 times (indices 0…6) and gives up at `off 7`; a transaction that is
-    answered at all is therefore answered within `dTx` of its start -/
-def maxIdx : Nat := 6
 def dTx : Nat := off maxIdx
 /-- a handler makes at most `maxAttempts` attempts -/
 def dH : Nat := maxAttempts * dTx
